@@ -140,7 +140,11 @@ func scriptsFor(vals []int, withSuffixes bool) [][]Tok {
 	m := len(vals) + 1
 	var out [][]Tok
 	out = append(out, append([]Tok{}, base...))
-	for _, end := range []Tok{{'C', 0, m}, {'E', 1, m}} {
+	ends := []Tok{{'C', 0, m}, {'E', 1, m}}
+	if len(vals) <= 2 {
+		ends = append(ends, Tok{'E', 0, m}) // Error(nil): an error ending whose error value is nil
+	}
+	for _, end := range ends {
 		s := append(append([]Tok{}, base...), end)
 		out = append(out, s)
 		if withSuffixes {
